@@ -998,19 +998,19 @@ func seqRun(prop, tier string, c Case, w *Worker) (res Result) {
 func init() {
 	register(&Engine{Name: "seqhist", Props: []string{"C01", "C02", "C04", "C05", "C07", "C12", "C13"}, Cases: seqCases, Run: seqRun})
 	histRule := "one generated call history per case on a fresh instance (name universe with SQL wildcards, dots, spaces, non-ASCII, >100-byte and codec-looking components; reuse of names forced; contents from the size classes around block and record boundaries); the monitor runs after every call; non-trivial = at least 3 successful mutating calls and at least 4 records on the tape; distinct = distinct (configuration, call list)"
-	propMeta["C02"] = PropMeta{Level: "exploration", Rule: histRule + "; C02 monitor: outcome, returned data and full tree (kinds, sizes, contents, permission bits, owners, timestamps) against a POSIX reference model that is itself validated against afero.OsFs",
+	propMeta["C02"] = PropMeta{Level: "exploration", Rule: histRule + "; C02 monitor: outcome, returned data and full tree (kinds, sizes, contents, permission bits, owners, timestamps) against a POSIX reference model that is itself validated against afero.OsFs; plus the composite call 'latewrite' (a handle is opened and left idle, another handle rewrites the file and closes, the idle handle then writes and closes: shared-file semantics of the reference), one sparse file of more than 2^31 bytes, and in a fifth of the histories every 1st-4th call is made by a NEW instance over the same tape and index (restart)",
 		Assumptions: []string{"reference-ambiguous shapes (rename of a directory onto an empty directory or onto itself, RemoveAll through a file) accept either outcome", "op shapes of the open findings listed in KNOWN_FINDINGS.txt are generated only by their dedicated witness cases", "symlinks and operations on the root itself are outside the generator"}}
 	propMeta["C01"] = PropMeta{Level: "exploration", Rule: histRule + "; C01 monitor: tree+content through (a) a fresh instance over a copy of the index and (b) a fresh instance that rebuilds the index from a copy of the tape alone, both equal to the live instance after every call; histories include symlinks and batched Archive/Update/Delete/Move",
 		Assumptions: []string{"'fresh process' is approximated by a fresh object graph in the same process over copies of the files; File.Name() is not part of the compared tree"}}
 	propMeta["C05"] = PropMeta{Level: "exploration", Rule: histRule + "; C05 monitor: byte-prefix test of the drive file around every call, failing calls append nothing, length multiple of 512, independent archive/tar scan restarting after each trailer, member bytes == file content for uncompressed+unencrypted configurations; at the end of each history GNU tar (`tar -i -tf`) must list the tape without error and find as many members as the scan found records",
 		Assumptions: []string{"explicit overwrite/initialise calls are not part of the histories (they are the stated exception)"}}
-	propMeta["C13"] = PropMeta{Level: "exploration", Rule: histRule + "; C13 monitor: live index rows == entries reachable by listing, parent is a live directory, Readdir(-1) == children exactly once, Readdirnames == Readdir names, Readdir(n) for n in {0,1,2,|c|-1,|c|,|c|+1} within bounds and within the children, every listed name stat-able and openable with matching kind and size",
+	propMeta["C13"] = PropMeta{Level: "exploration", Rule: histRule + "; C13 monitor: live index rows == entries reachable by listing, parent is a live directory, Readdir(-1) == children exactly once, Readdirnames == Readdir names, Readdir(n) for n in {0,1,2,|c|-1,|c|,|c|+1} within bounds and within the children, every listed name stat-able and openable with matching kind and size; up to three directory handles are kept open across calls and have to list what is there now; histories include Operations.Archive / Update / Delete / Move",
 		Assumptions: []string{"symlinks are outside this generator"}}
-	propMeta["C12"] = PropMeta{Level: "exploration", Rule: histRule + " over the alphabet {a, ab, a_, a%, 'a b', a.b, ä, aä, %, _}; C12 monitor: set algebra on the observed tree before/after every Remove/RemoveAll/Rename/Operations.Delete/Move (nothing outside the subtree changed, nothing inside survived, moved subtree identical, into-own-subtree refused), and the same effect after a rebuild from the tape",
+	propMeta["C12"] = PropMeta{Level: "exploration", Rule: histRule + " over the alphabet {a, ab, a_, a%, 'a b', a.b, ä, aä, %, _}; C12 monitor: set algebra on the observed tree before/after every Remove/RemoveAll/Rename/Operations.Delete/Move (nothing outside the subtree changed, nothing inside survived, moved subtree identical, into-own-subtree refused), and the same effect after a rebuild from the tape; histories include Operations.Move / Delete (the CLI's entry points), a third of the Operations.Move destinations in exotic histories are unclean (trailing slash, //, /./, /x/../), rename source and destination are spelled independently, a third of the own-subtree destinations go below a component that starts or ends with dots",
 		Assumptions: []string{}}
 	propMeta["C04"] = PropMeta{Level: "exploration", Rule: histRule + " with batched Archive (1..6 members); C04 monitor: every live row's (record, block) is the offset of a record found by an independent tar scan and is the record that last carried the entry's content according to an independent record interpreter, block < record size, last-known >= content position, Fetch at the position == reference content, last-indexed position == final record, recovery.Query positions == scan positions",
 		Assumptions: []string{"expected content comes from the reference model while the history agrees with it, otherwise from the raw member bytes (plain configurations)"}}
-	propMeta["C07"] = PropMeta{Level: "exploration", Rule: histRule + " biased to moves and delete-recreate; C07 monitor (end of history): for j in all/sampled record prefixes: index of the first j records, then replay of the whole tape without wiping: no error, tree == from-scratch rebuild, a further pass changes no row; j=R uses a copy of the live index",
+	propMeta["C07"] = PropMeta{Level: "exploration", Rule: histRule + " biased to moves and delete-recreate; C07 monitor (end of history): for j in all/sampled record prefixes: index of the first j records, then replay of the whole tape without wiping: no error, tree == from-scratch rebuild, a further pass changes no row; j=R uses a copy of the live index; every second prefix index is built with another record size (2x, or half + 1) than the replay uses",
 		Assumptions: []string{}}
 }
 
